@@ -184,6 +184,22 @@ def ctor_bodies(crate):
     helper (a private/pub(crate) function holding the literal is inlined at its callers and judged there, never in isolation:
     its argument is whatever the callers pass)."""
     lit = seq_aggregates(crate)
+    # a literal inside a closure (`cond.then(|| Seq { .. })`) is judged in the function the closure belongs to, where its captures
+    # are known and the combinator is presented as the match it abbreviates
+    byp = {}
+    for b in crate.bodies:
+        byp.setdefault(b["path"], []).append(b)
+    lit2 = []
+    for b, n in lit:
+        cur = b
+        while cur is not None and cur["kind"] == "Closure":
+            ps = byp.get(cur.get("parent") or "", [])
+            cur = ps[0] if len(ps) == 1 else None
+        if cur is None:
+            lit2.append((b, n))
+        elif not any(x is cur for x, _ in lit2):
+            lit2.append((cur, n))
+    lit = lit2
     helpers = {b["path"] for b, _ in lit if _is_helper(b)}
     out = [(b, n) for b, n in lit if not _is_helper(b)]
     seen = {b["path"] for b, _ in out}
